@@ -227,7 +227,15 @@ theorem traverse_collects_gen (c : Cfg) (s : Store) (qv : List Nat) (q : QueryOp
           simp only [hg]
           simp only [T.size] at hsz
           simp only [T.collect, List.length_append] at hcl
-          generalize hm : (if c.metric.isZero nrm = true then F32.zero else c.metric.margin c.host nrm qv) = margin
+          -- independent of how the reader computes the margin
+          suffices key : ∀ margin : Nat, ∃ out,
+              traverse c s qv q searchK n
+                ((Metric.pqDistance d margin true, r.ref) :: (Metric.pqDistance d margin false, l.ref) ::
+                  tq'.map fun p => (p.1, p.2.ref)) nns = .ok out ∧
+              (∀ x, x ∈ out → (x ∈ nns ∨ ∃ p ∈ tq, x ∈ p.2.collect q)) ∧
+              (nns.length + (tq.map (fun p => (p.2.collect q).length)).sum ≤ searchK →
+                ∀ x, (x ∈ nns ∨ ∃ p ∈ tq, x ∈ p.2.collect q) → x ∈ out) from key _
+          intro margin
           have hitems : ∀ x, x ∈ (T.node id nrm l r).items ↔ x ∈ l.items ∨ x ∈ r.items := by
             intro x; simp [T.items]
           obtain ⟨out, ho, hm1, hm2⟩ := ih ((Metric.pqDistance d margin true, r) :: (Metric.pqDistance d margin false, l) :: tq') nns
@@ -305,7 +313,7 @@ theorem traverse_inCandidates (c : Cfg) (s : Store) (qv : List Nat) (q : QueryOp
     rcases List.mem_append.1 hx with hx | hx
     · exact h0 x hx
     · exact (mem_collect_sub q (.bucket 0 ids) x hx).2
-  | case7 fuel queue nns hs dist node queue' hp l r normal hg margin ih => exact ih out h h0
+  | case7 => rename_i ih; exact ih out h h0
   | case8 => cases h
 
 /-- the loop only appends -/
@@ -324,7 +332,7 @@ theorem traverse_extends (c : Cfg) (s : Store) (qv : List Nat) (q : QueryOpts) (
     · exact this
   | case6 fuel queue nns hs dist node queue' hp ids hg ih =>
     exact (List.prefix_append _ _).trans (ih out h)
-  | case7 fuel queue nns hs dist node queue' hp l r normal hg margin ih => exact ih out h
+  | case7 => rename_i ih; exact ih out h
   | case8 => cases h
 
 /-- **prefix lemma**: the sequence of pops does not depend on the budget. From the same state and with
